@@ -268,6 +268,9 @@ impl<'a, F: FileSystem> ExtendsResolver<'a, F> {
                     value: config_value.clone(),
                 });
             }
+            // Validate the member's own marker positions before merging: `merge_arrays`
+            // consumes a leading marker, which would hide a second one from the check below.
+            validate_reset_positions(&config_value, "")?;
             (merge_toml_values(base_value, config_value), preset_used)
         } else {
             // Record source before return (clone only when tracking is needed)
